@@ -106,6 +106,20 @@ def check_case(case):
                     break
             if r.fails:
                 continue
+        # pass 1c: ONE operator object queried on every state in turn, each state short-lived (built, queried, dropped)
+        prob_objs = pg.lib_state(judged[0][0])[1].objects
+        reused = guard(lambda: pg.op("a", args, pg.lib_state(judged[0][0])[1]))
+        if not isinstance(reused, Raised):
+            for st, s_val, p_val in judged:
+                got = guard(lambda: reused.is_applicable(pg.lib_state(st)[0]))
+                r.count("transitions")
+                r.count("operator-reuse")
+                if got is not s_val:
+                    fresh = guard(lambda: pg.op("a", args, pg.lib_state(st)[1]).is_applicable(pg.lib_state(st)[0]))
+                    if fresh is s_val and judge(got, s_val, None, args, st, "one operator re-used over successive states"):
+                        break
+            if r.fails:
+                continue
         # pass 2: operand orders.  One parse + one grounding per order, queried on every state;
         # a disagreement is confirmed in isolation (fresh objects, same schedule) before it counts.
         lib_states = [pg.lib_state(st) for st, _, _ in judged]
